@@ -79,7 +79,8 @@ Theorem hsim_switch c he hs s sp v t cls lc code lc' pc he0 x tn tag fs q cl e1 
   find_clause cls tag = Some cl -> bind (vars (cl_ctx cl)) fs = Some e1 ->
   InvA HEAP_BASE hs (roots he) hl fl cl0 -> P03 hs -> Heap.frontier hs <= LIMIT ->
   (fs <> [] -> HeapRep.rep_flds lk (Heap.m hs) fs q) ->
-  exists pcb lcb cb lcb' c0 s',
+  let c0 := removelast c in
+  exists pcb lcb cb lcb' s',
     exec_to im pc s pcb s' /\
     xcs (ptypes p) (cl_body cl) (c0 ++ cl_ctx cl) lcb = Ok (cb, lcb') /\ code_at im pcb cb /\ labels_at_nh im pcb cb /\
     lin_check (sigs_of p) (c0 ++ cl_ctx cl) (cl_body cl) = true /\
@@ -87,12 +88,12 @@ Theorem hsim_switch c he hs s sp v t cls lc code lc' pc he0 x tn tag fs q cl e1 
          (hrun (load_ops (List.length (cl_ctx cl)) q) hs) s' sp /\
     hframe_eq s s' sp.
 Proof.
-  intros R LC CS CA LA NHL SL FC BD IA K03 HFr RF.
+  intros R LC CS CA LA NHL SL FC BD IA K03 HFr RF c0'.
   apply split_last1_inv in SL. subst he.
   pose proof (hrel_length R) as LEN. rewrite app_length in LEN. cbn [List.length] in LEN.
   rewrite lin_check_switch in LC. apply andb_true_iff in LC as [_ LC].
   destruct (split_lastn 1 c) as [[c0 [|b [|b' r]]]|] eqn:SLc; try discriminate.
-  apply split_lastn_Some in SLc as [-> _].
+  apply split_lastn_Some in SLc as [-> _]. unfold c0'. rewrite removelast_last. clear c0'.
   apply andb_true_iff in LC as [LC LCc]. apply andb_true_iff in LC as [LC CO]. apply andb_true_iff in LC as [LC TY].
   apply andb_true_iff in LC as [IDb CH]. apply N.eqb_eq in IDb. apply ty_eqb_eq in TY. apply chi_eqb_eq in CH.
   rewrite app_length in LEN. cbn [List.length] in LEN. assert (L0 : List.length he0 = List.length c0) by lia.
@@ -172,7 +173,7 @@ Proof.
     assert (ECX : cl_ctx cl = []) by (destruct (cl_ctx cl); [reflexivity|cbn in Lfs; lia]).
     assert (e1 = []) by (rewrite ECX in BD; cbn in BD; congruence). subst e1.
     rewrite ECX in *. cbn [x_load] in LD. inversion LD; subst cl1 lcb. cbn [List.length padd] in CAbd, LAbd.
-    exists pcc, lcl, cb, lcb', c0, sj. split; [exact XJ|]. split; [exact BDY|]. split; [exact CAbd|]. split; [exact LAbd|].
+    exists pcc, lcl, cb, lcb', sj. split; [exact XJ|]. split; [exact BDY|]. split; [exact CAbd|]. split; [exact LAbd|].
     split; [exact LCb|]. split; [|split; [exact OUj|apply stack_frame_eq; exact STj]].
     cbn [List.length load_ops hrun fold_left attach]. rewrite !app_nil_r.
     eapply (hrel_prefix (ptypes p) CLO); exact Rj.
@@ -191,7 +192,7 @@ Proof.
     destruct (hsim_load im (ptypes p) CLO c0 (cl_ctx cl) he0 x (VObj tn tag fs) q fs e1 hs sj sp lcl cl1 lcb pcc lk hl fl cl0
                 (hrel_prefix (ptypes p) CLO c0 b he0 _ hs sj sp Rj) LQ XFj NEf E1S E1F KIN (lin_nodup _ _ _ LCb) IA K03 (RF NEf) HFr LD CAl LAl)
       as (s' & XL & FEL & RL).
-    exists (padd pcc (List.length cl1)), lcb, cb, lcb', c0, s'.
+    exists (padd pcc (List.length cl1)), lcb, cb, lcb', s'.
     split; [eapply exec_to_trans; eassumption|]. split; [exact BDY|]. split; [exact CAbd|]. split; [exact LAbd|]. split; [exact LCb|].
     split.
     + rewrite <- Lfs. rewrite load_ops_run by (cbn; lia). exact RL.
